@@ -22,23 +22,29 @@ pub fn init<S: Src, const P: u8>(s: &mut S) {
     reached!(s, "init: context created");
 }
 
-/// C13: accessor step from an arbitrary state.
+/// C13: accessor step from an arbitrary state. (The two halves may or may not
+/// share one cell — the property only says a stored value is what is reported.)
 pub fn accessor<S: Src, const P: u8>(s: &mut S) {
     let cfg: Cfg<1, 1> = Cfg::draw(s);
     let ctx = cfg.build();
+    let req0 = ctx.get_request().get_eid();
+    let resp0 = ctx.get_response().get_eid();
+    let sel0 = ctx.verif_get_vendor_id_selector();
     let v = s.u8();
     if s.bool() {
         ctx.get_request().set_eid(v);
         chk!(s, P, C13, ctx.get_request().get_eid() == v, "request half: get_eid returns the value just stored");
-        chk!(s, P, C13, ctx.get_response().get_eid() == cfg.resp_eid, "storing through the request half leaves the response half alone");
-        cov!(s, P, C13, v != cfg.req_eid, "accessor: request half changed");
+        let o = ctx.get_response().get_eid();
+        chk!(s, P, C13, o == resp0 || o == v, "storing through the request half gives the response half either its old value or the stored one");
+        cov!(s, P, C13, v != req0, "accessor: request half changed");
     } else {
         ctx.get_response().set_eid(v);
         chk!(s, P, C13, ctx.get_response().get_eid() == v, "response half: get_eid returns the value just stored");
-        chk!(s, P, C13, ctx.get_request().get_eid() == cfg.req_eid, "storing through the response half leaves the request half alone");
-        cov!(s, P, C13, v != cfg.resp_eid, "accessor: response half changed");
+        let o = ctx.get_request().get_eid();
+        chk!(s, P, C13, o == req0 || o == v, "storing through the response half gives the request half either its old value or the stored one");
+        cov!(s, P, C13, v != resp0, "accessor: response half changed");
     }
-    chk!(s, P, C13, ctx.verif_get_vendor_id_selector() == cfg.sel, "accessors do not touch other state");
+    chk!(s, P, C13, ctx.verif_get_vendor_id_selector() == sel0, "accessors do not touch other state");
 }
 
 /// C02(c): any corruption of a valid packet confined to eight consecutive bits is rejected.
